@@ -103,6 +103,10 @@ def cases(ctx):
             yield {"k": "pair", "script": wire.detok([("push", data), ("op", 0xAC)]).hex(), "tmpl": "%s OP_CHECKSIG" % tokname, "tag": kind}
         # the standard p2pkh unlock+lock shape with extraction order (below)
         pass
+    # 20-byte pushes of every "special" content are public-key hashes too
+    for hi, h20 in enumerate((bytes(20), b"\xff" * 20, bytes(19) + b"\x01", b"\x01" + bytes(19), b"\x80" + bytes(19))):
+        if hi % N == S % 5 or t:
+            yield {"k": "pair", "script": wire.detok([("op", 0x76), ("op", 0xA9), ("push", h20), ("op", 0x88), ("op", 0xAC)]).hex(), "tmpl": "OP_DUP OP_HASH160 OP_PUBKEYHASH OP_EQUALVERIFY OP_CHECKSIG", "tag": "pkh_token"}
     # public-key pushes with every possible tag byte in front of VALID coordinates: only 02/03 (33 bytes, right parity) and 04 (65 bytes)
     # decode as keys; the hybrid tags 06/07 and everything else do not
     Qk = ec.mul_g(r.randrange(1, ec.N))
